@@ -360,3 +360,29 @@ def con3(tier):
         for src_deg, tgt_deg in (('1', '0..1'), ('0..1', '0..1'), ('1', '0..*')):
             for cond in (False, True):
                 yield spec_for(n_choices, tgt_deg, src_deg, cond)
+
+
+def diamond(tier):
+    """DIAMOND: below option O1 two derivation branches of length la, lb reconverge in node C, which carries a choice; the other
+    option O2 optionally derives C (or the middle of a branch) as well."""
+    for la in (1, 2, 3):
+        for lb in (1, 2, 3):
+            for extra in (None, 'O2->C', 'O2->A1', 's->B1'):
+                nodes = ['O1', 'O2', 'C', 'x', 'y'] + [f'A{i}' for i in range(1, la)] + [f'B{i}' for i in range(1, lb)]
+                a = ['O1'] + [f'A{i}' for i in range(1, la)] + ['C']
+                bch = ['O1'] + [f'B{i}' for i in range(1, lb)] + ['C']
+                edges = [[a[i], a[i+1]] for i in range(len(a)-1)] + [[bch[i], bch[i+1]] for i in range(len(bch)-1)]
+                edges = [list(e) for e in sorted({tuple(e) for e in edges})]
+                if extra == 'O2->C':
+                    edges.append(['O2', 'C'])
+                elif extra == 'O2->A1':
+                    if la < 2:
+                        continue
+                    edges.append(['O2', 'A1'])
+                elif extra == 's->B1':
+                    if lb < 2:
+                        continue
+                    edges.append(['s', 'B1'])
+                for k_opts in (['O1', 'O2'], ['O2', 'O1']):
+                    yield dict(starts=['s'], nodes=nodes, edges=edges, incompat=[],
+                               choices=[['CH2', 'C', ['x', 'y']], ['K', 's', k_opts]])
